@@ -87,6 +87,7 @@ func (l *Limiter) Run(input interface{}) interface{} {
 		}
 		l.Unlock()
 	}
+	verifPoint("looked-up", input)
 	return l.getOutput(t)
 }
 
